@@ -152,6 +152,10 @@ def read_only(target, pi, depth, spell_kind, term, rep, level, trace=None):
     return before == after
 
 
+def tok(pi):
+    return '2020' if PATHS[pi][1] == 'EVN_2' else 'X'
+
+
 def expected_after_write(target, pi, depth):
     """expected (encoding of the innermost segment/field, chain of (class, name)) after writing X at depth"""
     grp, fld, cmp_, sub = PATHS[pi]
@@ -162,11 +166,11 @@ def expected_after_write(target, pi, depth):
     sno = T.child_number(sub) if sub else None
     # text of the field
     if 'sub' in kinds:
-        ftext = '^' * (cno - 1) + '&' * (sno - 1) + 'X'
+        ftext = '^' * (cno - 1) + '&' * (sno - 1) + tok(pi)
     elif 'comp' in kinds:
-        ftext = '^' * (cno - 1) + 'X'
+        ftext = '^' * (cno - 1) + tok(pi)
     else:
-        ftext = 'X'
+        ftext = tok(pi)
     if target == 2:
         return ftext
     if 'field' not in kinds:
@@ -187,7 +191,7 @@ def write_once(target, pi, depth, spell_kind, level, trace=None):
     navigate(root, steps, spell_kind)
     holder = navigate(root, steps[:-1], spell_kind) if len(steps) > 1 else root
     field_name = root.name if target == 2 else ([s[1] for s in steps if s[0] == 'field'] or [None])[0]
-    setattr(holder, spell(steps[-1], spell_kind, field_name, None), 'X')
+    setattr(holder, spell(steps[-1], spell_kind, field_name, None), tok(pi))
     # the innermost segment (or the field itself) must encode X at the defined position and nowhere else
     if target == 2:
         got = root.to_er7()
@@ -202,7 +206,7 @@ def write_once(target, pi, depth, spell_kind, level, trace=None):
     ok = got == want and _single_chain(root, target, pi, steps)
     # writing the same thing again adds nothing
     holder2 = navigate(root, steps[:-1], spell_kind) if len(steps) > 1 else root
-    setattr(holder2, spell(steps[-1], spell_kind, field_name, None), 'X')
+    setattr(holder2, spell(steps[-1], spell_kind, field_name, None), tok(pi))
     t2 = tree(root)
     if trace is not None:
         trace.append('write X at the end of %s (spelling %d)\n  innermost element encodes %r (expected %r)\n  tree before %r\n  tree after  %r\n  tree after 2nd identical write %r' % (
